@@ -1,12 +1,13 @@
 #!/bin/bash
-# seed_matrix.sh : for every seeded change under /verif/seeded, apply it (rebased version if the
+export V=${VERIF:-/verif}; export VERIF=$V
+# seed_matrix.sh : for every seeded change under $V/seeded, apply it (rebased version if the
 # original no longer applies to the repaired tree) to a scratch copy and run the check of its property.
-cd /verif/seeded
+cd $V/seeded
 for d in */; do
   d=${d%/}
   prop=${d%%-*}
   p=$d/patch.diff
   [ -f $d/patch.rebased.diff ] && p=$d/patch.rebased.diff
-  if [ $prop != C20 ] && ! /verif/bin/upfcheck -list | grep -qw $prop; then echo "NO-CHECK  $prop  $d"; continue; fi
-  MUT_LINES=2 /verif/scripts/mut.sh $p $prop 2>&1 | grep -E "^(DETECTED|MISSED|UNDECIDED|PATCH-FAILED)|rule=" | tr '\n' ' ' ; echo
+  if [ $prop != C20 ] && ! $V/bin/upfcheck -list | grep -qw $prop; then echo "NO-CHECK  $prop  $d"; continue; fi
+  MUT_LINES=2 $V/scripts/mut.sh $p $prop 2>&1 | grep -E "^(DETECTED|MISSED|UNDECIDED|PATCH-FAILED)|rule=" | tr '\n' ' ' ; echo
 done
